@@ -208,6 +208,13 @@ func checkC17(p *Prog, rp *Report) {
 		[]string{H1, B, C1, B, T1, B, H3, B, C1, B, T2, B, H1, B, C1, B, T1},
 		[]string{H2, B, C1, B, T1, B, H4, B, C1, B, T2},
 		[]string{H5, B, C1, B, T1, B, H2, B, C1, B, T2, B, H4, B, C1, B, T1})
+	// option values with a commentary (Policy 5.6.17: "urgency=low (HIGH for users of diversions)"): options are
+	// separated by commas only, and a value is everything after the first '='
+	H6 := "dpkg (1.4.0.9) unstable; urgency=low (HIGH for users of diversions)\n"
+	H7 := "pkg-x (2:1.2~rc1-6) stable; urgency=medium (see NEWS = news), binary-only=yes\n"
+	scripts = append(scripts,
+		[]string{H6, B, C1, B, T1},
+		[]string{H7, B, C1, B, T1, B, H6, B, C1, C2, B, T2})
 	// lines far longer than any reader buffer
 	longChange := "  * Closes: " + strings.Repeat("#123456, ", 700) + "\n"
 	scripts = append(scripts, []string{H1, B, longChange, C2, B, T1}, []string{H1, B, C1, B, T1, B, H2, B, longChange, B, T2})
